@@ -420,6 +420,62 @@ def locale_level(ctx: Ctx, cs, base):
     shutil.rmtree(root, ignore_errors=True)
 
 
+def large_file_level(ctx: Ctx, cs, base):
+    """Files well beyond one I/O buffer (8 KiB, 64 KiB, 128 KiB), densely filled with 2-, 3- and 4-byte characters in reference
+    records, comments and lyrics, each in several byte alignments: load(path) == loads(text), dump == dumps."""
+    import kernpy as kp
+    rng = random.Random(cs ^ 0xB16)
+    doc, pname = make_doc(cs, 'texty', hostile_text=0.6, measures=(2, 4))
+    body = doc.text(0)
+    hl = next(i for i, ln in enumerate(body.split('\n')) if ln.startswith('**'))
+    width = len(body.split('\n')[hl].split('\t'))
+    unit = rng.choice(['やよい', 'ñé', '𝄞𝄢', 'aé日𝄞', 'größe'])
+    target = rng.choice([9000, 20000, 70000, 140000])
+    for shift in range(0, 4):
+        ctx.ev()
+        ctx.mon('large_file_cases')
+        pre = ('!!' + 'x' * shift + '\n') + '!!!OTL: ' + unit * (target // (2 * len(unit.encode('utf-8')))) + '\n'
+        lines = body.split('\n')
+        # a long local comment line inside the score as well (one cell per spine)
+        k = hl + 1
+        lines.insert(k, '\t'.join('!' + unit * (target // (2 * width * len(unit.encode('utf-8')))) for _ in range(width)))
+        text = pre + '\n'.join(lines)
+        pth = os.path.join(base, f'big{cs % 10 ** 6}', f's{shift}.krn')
+        write(pth, text)
+        ctx.mon(f'large_file_bytes>={min(131072, 1 << (len(text.encode("utf-8")).bit_length() - 1))}')
+        case = {'case_seed': cs, 'large_file': True, 'shift': shift, 'unit': unit, 'bytes': len(text.encode('utf-8'))}
+        d1, e1, x1 = kpx.loads(text)
+        try:
+            d2, e2 = kp.load(pth)
+        except Exception as ex:
+            if x1 is None:
+                ctx.violation('load-vs-loads', f'load of a {case["bytes"]}-byte file raised {type(ex).__name__}: {ex}', case)
+            continue
+        if x1 is not None:
+            ctx.violation('load-vs-loads', f'loads raised {type(x1).__name__} but load of the same {case["bytes"]}-byte text succeeded', case)
+            continue
+        if kpx.snapshot(d1) != kpx.snapshot(d2):
+            a_, b_ = kpx.dumps(d1)[0] or '', kpx.dumps(d2)[0] or ''
+            t1 = [t.encoding for t in d1.get_all_tokens()]
+            t2 = [t.encoding for t in d2.get_all_tokens()]
+            j = next((i for i, (p_, q_) in enumerate(zip(t1, t2)) if p_ != q_), -1)
+            ctx.violation('load-vs-loads', f'load(file) and loads(text) differ for a {case["bytes"]}-byte file filled with {unit!r} '
+                          f'(alignment shift {shift}); first differing token #{j}: lengths {len(t1[j]) if j >= 0 else "?"} vs '
+                          f'{len(t2[j]) if j >= 0 else "?"}; exports equal: {a_ == b_}', case)
+            continue
+        s_, err = kpx.dumps(d1)
+        if err is None:
+            outp = os.path.join(base, f'big{cs % 10 ** 6}', f'out{shift}.krn')
+            try:
+                kp.dump(d2, outp)
+                if read(outp) != s_:
+                    ctx.violation('dump-vs-dumps', f'dump of a {case["bytes"]}-byte document differs from dumps', case)
+            except Exception as ex:
+                ctx.violation('dump-vs-dumps', f'dump of a {case["bytes"]}-byte document raised {type(ex).__name__}: {ex}', case)
+        ctx.nontriv('large', cs, shift)
+    shutil.rmtree(os.path.join(base, f'big{cs % 10 ** 6}'), ignore_errors=True)
+
+
 def run(ctx: Ctx):
     shard_i = ctx.shard[0] if ctx.shard else 0
     base = str(SCRATCH_DIR / f'c20-{os.getpid()}')
@@ -444,6 +500,8 @@ def run(ctx: Ctx):
             cli_level(ctx, cs, base, real=True, strace=(i < 2))
         for cs in cases(ctx, 'c20l', 2):
             locale_level(ctx, cs, base)
+        for cs in cases(ctx, 'c20b', 6 if ctx.tier == 'quick' else 30):
+            large_file_level(ctx, cs, base)
     finally:
         shutil.rmtree(base, ignore_errors=True)
     ctx.floors = {'load': ('load_vs_loads', 100), 'dump': ('dump_vs_dumps', 100), 'cli': ('cli_runs', 40),
@@ -457,7 +515,9 @@ def replay(ctx, w):
     base = str(SCRATCH_DIR / f'c20-replay-{os.getpid()}')
     os.makedirs(base, exist_ok=True)
     try:
-        if 'configuration' in case:
+        if case.get('large_file'):
+            large_file_level(ctx, case['case_seed'], base)
+        elif 'configuration' in case:
             locale_level(ctx, case['case_seed'], base)
         elif 'variant' in case:
             file_level(ctx, case['case_seed'], base)
